@@ -256,24 +256,39 @@ impl RequestHttpFrontend {
     }
 }
 
+/// A component of the frontend key. `;` separates the components, so a `;`
+/// inside a hostname, path or method (and the escape character `\` itself) is
+/// escaped: the key of `path "/api;GET"` without method must not be the key of
+/// `path "/api"` with method `GET`. Components without `;` or `\` — all the
+/// usual ones — are written as they are.
+fn key_component(component: &str) -> std::borrow::Cow<'_, str> {
+    if component.contains([';', '\\']) {
+        std::borrow::Cow::Owned(component.replace('\\', "\\\\").replace(';', "\\;"))
+    } else {
+        std::borrow::Cow::Borrowed(component)
+    }
+}
+
 impl Display for RequestHttpFrontend {
     /// Used to create a unique summary of the frontend, used as a key in maps
     fn fmt(&self, f: &mut fmt::Formatter<'_>) -> fmt::Result {
+        let hostname = key_component(&self.hostname);
+        let path = key_component(&self.path.value);
         let s = match &PathRuleKind::try_from(self.path.kind) {
             Ok(PathRuleKind::Prefix) => {
-                format!("{};{};P{}", self.address, self.hostname, self.path.value)
+                format!("{};{};P{}", self.address, hostname, path)
             }
             Ok(PathRuleKind::Regex) => {
-                format!("{};{};R{}", self.address, self.hostname, self.path.value)
+                format!("{};{};R{}", self.address, hostname, path)
             }
             Ok(PathRuleKind::Equals) => {
-                format!("{};{};={}", self.address, self.hostname, self.path.value)
+                format!("{};{};={}", self.address, hostname, path)
             }
             Err(e) => format!("Wrong variant of PathRuleKind: {e}"),
         };
 
         match &self.method {
-            Some(method) => write!(f, "{s};{method}"),
+            Some(method) => write!(f, "{s};{}", key_component(method)),
             None => write!(f, "{s}"),
         }
     }
